@@ -27,7 +27,7 @@ def refParams : Params :=
     authIota := [0, 1, 2, 3, 4, 5],
     requires := [2, 4, 5],
     serverPrefFirst := true, alpnServerFirst := true, clientEcdheGuard := true,
-    encCertNeedsSig := true, cloneMissing := [] }
+    encCertNeedsSig := true, resumeHonoursPolicy := true, cloneMissing := [] }
 
 /-! ### small list facts -/
 
@@ -361,5 +361,180 @@ theorem offered_contains_of_usable (c : ClientCfg) (s : ServerCfg) (suite : Nat)
   obtain ⟨⟨⟨h1, _⟩, _⟩, h4⟩ := hu
   rw [h1, h4]
   rcases mem_docOrder hm with h | h | h | h <;> subst h <;> simp [flagsOf, refParams, List.find?]
+
+theorem negotiate_ref (c : ClientCfg) (s : ServerCfg) :
+    (compatible c s = true → negotiate refParams c s = .ok (expected c s)) ∧
+    (compatible c s = false → isOk (negotiate refParams c s) = false) := by
+  unfold negotiate handshake compatible expected expectedWith
+  simp only [cloneClient_ref, cloneServer_ref, supportedVersions_ref, negotiateALPN_ref]
+  cases hvc : versionOK c.minV c.maxV with
+  | false => simp [isOk]
+  | true =>
+    simp only [if_true, versionsFromMax_ref, mutualVersion_ref]
+    cases hvs : versionOK s.minV s.maxV with
+    | false => simp [isOk]
+    | true =>
+      simp only [if_true]
+      cases ha : alpnRule s.alpn c.alpn with
+      | none => simp [isOk]
+      | some proto =>
+        simp only [Bool.true_and, Option.isSome_some, Option.getD_some]
+        have hcv : ([257] : List Nat).contains 257 = true := by decide
+        simp only [hcv, Bool.not_true, Bool.false_eq_true, if_false]
+        cases hsc : serverHasCerts s with
+        | false =>
+          have : serverHasKeys s = false := by unfold serverHasKeys; rw [← serverHasCerts_eq, hsc]; simp
+          simp [nokeys_mutual_none c s this, isOk]
+        | true =>
+          simp only [Bool.not_true, Bool.false_eq_true, if_false]
+          by_cases hkeys : s.sigKey = .sm2 ∧ s.encKey = .sm2
+          · obtain ⟨hsig, henc⟩ := hkeys
+            simp only [keyFlags, hsig, henc]
+            rw [pick_ref c s _ hsc hsig henc (by rfl)]
+            cases hm : mutualSuite c s with
+            | none => exact ⟨by simp, by simp [isOk]⟩
+            | some suite =>
+              have hmem : suite ∈ docOrder := List.mem_of_find?_eq_some hm
+              have hus : usable c s suite = true := List.find?_some hm
+              simp only [offered_contains_of_usable c s suite hmem hus, checkALPN_of_rule _ _ _ ha,
+                Bool.not_true, Bool.false_eq_true, if_false, Option.getD_some]
+              have hne : (KeyKind.sm2 != KeyKind.sm2) = false := by decide
+              simp only [hne, Bool.false_eq_true, if_false]
+              obtain ⟨h1, h2⟩ := authStage_ref c s suite hmem
+              cases hao : authOK c s suite with
+              | true =>
+                rw [h1 hao]
+                refine ⟨fun _ => ?_, by simp⟩
+                simp [docVersion, sniOf]
+              | false =>
+                have h3 := h2 hao
+                refine ⟨by simp, fun _ => ?_⟩
+                cases hst : clientAuthStage refParams c s suite with
+                | error e => rfl
+                | ok certs => rw [hst] at h3; simp [isOk] at h3
+          · have hk : serverHasKeys s = false := by
+              unfold serverHasKeys
+              cases hsig : s.sigKey <;> cases henc : s.encKey <;> simp_all
+            rw [nokeys_mutual_none c s hk]
+            refine ⟨by simp, fun _ => ?_⟩
+            cases hsig : s.sigKey <;> cases henc : s.encKey <;> simp only [keyFlags, hsig, henc] <;>
+              first
+              | rfl
+              | (exfalso; exact hkeys ⟨hsig, henc⟩)
+              | (rw [pick_none c s _ _ (by rfl)]; rfl)
+              | (cases serverPick refParams _ s (offeredSuites refParams c) with
+                 | none => rfl
+                 | some suite =>
+                   simp only []
+                   split
+                   · rfl
+                   · split
+                     · rfl
+                     · simp [isOk])
+
+theorem compatible_parts (c : ClientCfg) (s : ServerCfg) (h : compatible c s = true) :
+    versionOK c.minV c.maxV = true ∧ versionOK s.minV s.maxV = true ∧
+    (∃ proto, alpnRule s.alpn c.alpn = some proto) ∧
+    (∃ suite, mutualSuite c s = some suite ∧ authOK c s suite = true) := by
+  unfold compatible at h
+  simp only [Bool.and_eq_true] at h
+  obtain ⟨⟨⟨h1, h2⟩, h3⟩, h4⟩ := h
+  refine ⟨h1, h2, ?_, ?_⟩
+  · cases ha : alpnRule s.alpn c.alpn with
+    | none => rw [ha] at h3; simp at h3
+    | some p => exact ⟨p, rfl⟩
+  · cases hm : mutualSuite c s with
+    | none => rw [hm] at h4; simp at h4
+    | some suite => rw [hm] at h4; exact ⟨suite, rfl, h4⟩
+
+theorem usable_keys (c : ClientCfg) (s : ServerCfg) (suite : Nat) (h : usable c s suite = true) :
+    serverHasKeys s = true ∧ enabled s.suites suite = true := by
+  unfold usable at h
+  simp only [Bool.and_eq_true] at h
+  exact ⟨h.1.2, h.1.1.2⟩
+
+/-- the next connection between the same configurations: resumed iff both sides cache -/
+theorem negotiateNext_ref (c : ClientCfg) (s : ServerCfg) (h : compatible c s = true) :
+    negotiateNext refParams c s (expected c s) = .ok (expectedNext c s) := by
+  obtain ⟨hvc, hvs, ⟨proto, ha⟩, ⟨suite, hm, hao⟩⟩ := compatible_parts c s h
+  have hmem : suite ∈ docOrder := List.mem_of_find?_eq_some hm
+  have hus : usable c s suite = true := List.find?_some hm
+  obtain ⟨hkeys, hen⟩ := usable_keys c s suite hus
+  have hk := hkeys
+  unfold serverHasKeys at hk
+  simp only [Bool.and_eq_true, beq_iff_eq] at hk
+  obtain ⟨⟨hcerts, hsig⟩, henc⟩ := hk
+  have hsc : serverHasCerts s = true := by rw [serverHasCerts_eq]; simpa using hcerts
+  have hoff := offered_contains_of_usable c s suite hmem hus
+  unfold negotiateNext handshake expectedNext expectedWith expected expectedWith sessionOf resumable
+  simp only [cloneClient_ref, cloneServer_ref, supportedVersions_ref, negotiateALPN_ref, hvc, hvs, if_true,
+    versionsFromMax_ref, mutualVersion_ref, ha, hm, Option.getD_some, hsc, Bool.not_true, Bool.false_eq_true,
+    if_false, keyFlags, hsig, henc]
+  have hcv : ([257] : List Nat).contains 257 = true := by decide
+  simp only [hcv, Bool.not_true, Bool.false_eq_true, if_false]
+  have hres : serverResumes refParams
+      { ecSignOk := true, ecDecryptOk := true, rsaDecryptOk := false, rsaSignOk := false } s 257
+      (offeredSuites refParams c)
+      { vers := docVersion, suite := suite, clientPeer := [.S, .E], serverPeer := clientCertsSeen c s suite } = true := by
+    unfold serverResumes selectCipherSuite
+    unfold mutualCipherSuite at hoff
+    simp only [Bool.and_eq_true] at hoff
+    have h2 : (configSuites refParams s.suites).contains suite = true := by
+      have := mutual_ref s.suites suite hmem
+      unfold mutualCipherSuite at this
+      rw [hen] at this
+      simp only [Bool.and_eq_true] at this
+      exact this.1
+    simp only [hoff.1, h2, docVersion, List.find?]
+    rcases mem_docOrder hmem with e | e | e | e <;> subst e <;>
+      simp [flagsOf, refParams, List.find?, cipherSuiteOk]
+  simp only [hres, Bool.and_true]
+  cases hcc : c.cache <;> cases hsca : s.cache
+  all_goals simp only [Bool.and_false, Bool.false_and, Bool.and_self, Bool.false_eq_true, if_false, if_true]
+  all_goals first
+    | (rw [pick_ref c s _ hsc hsig henc (by rfl), hm]
+       simp only [hoff, checkALPN_of_rule _ _ _ ha, Bool.not_true, Bool.false_eq_true, if_false]
+       have hne : (KeyKind.sm2 != KeyKind.sm2) = false := by decide
+       simp only [hne, Bool.false_eq_true, if_false, (authStage_ref c s suite hmem).1 hao]
+       simp [docVersion, sniOf])
+    | (simp only [hoff, checkALPN_of_rule _ _ _ ha, Bool.not_true, Bool.false_eq_true, if_false]
+       simp [docVersion, sniOf])
+
+
+/-! ### consequences used by the property theorems -/
+
+/-- success or failure, and the agreed parameters on success -/
+def outcome (r : Except Failure Agreed) : Option Agreed := r.toOption
+
+/-- the failure, if any -/
+def failureOf : Except Failure Agreed → Option Failure
+  | .ok _ => none
+  | .error e => some e
+
+theorem outcome_ref (c : ClientCfg) (s : ServerCfg) :
+    outcome (negotiate refParams c s) = if compatible c s then some (expected c s) else none := by
+  obtain ⟨h1, h2⟩ := negotiate_ref c s
+  cases hc : compatible c s with
+  | true => rw [h1 hc]; rfl
+  | false =>
+    have := h2 hc
+    cases hn : negotiate refParams c s with
+    | error e => rfl
+    | ok a => rw [hn] at this; simp [isOk] at this
+
+/-- the spec looks at configured suites only through membership -/
+theorem usable_congr (c c' : ClientCfg) (s s' : ServerCfg)
+    (hc : ∀ id, enabled c.suites id = enabled c'.suites id)
+    (hs : ∀ id, enabled s.suites id = enabled s'.suites id)
+    (h1 : clientHasSig c = clientHasSig c') (h2 : clientHasEnc c = clientHasEnc c')
+    (h3 : serverHasKeys s = serverHasKeys s') (id : Nat) :
+    usable c s id = usable c' s' id := by
+  unfold usable
+  rw [hc, hs, h1, h2, h3]
+
+theorem enabled_perm (l l' : List Nat) (h : l.Perm l') (id : Nat) :
+    enabled (some l) id = enabled (some l') id := by
+  unfold enabled
+  exact h.contains_eq
 
 end Gotlcp.Lemmas.Negotiate
